@@ -47,13 +47,15 @@ class SparseHeightMap(BaseHeightMap):
         "_scale_z",
         "_tolerance",
         "_resolution",
-        "_interpolator"
+        "_interpolator",
+        "_samples"
     )
 
     def __init__(self, sparse_data: ndarray) -> None:
         self._scale_z = 1.0
         self._tolerance = 0.378
         self._interpolator = self._create_interpolator(sparse_data)
+        self._samples = self._create_samples(sparse_data)
 
     @classmethod
     def from_path(cls, path: str) -> "SparseHeightMap":
@@ -134,6 +136,15 @@ class SparseHeightMap(BaseHeightMap):
         Returns:
             float: Interpolated elevation scaled by the scale factor.
         """
+
+        # Stored samples are returned exactly. Due to rounding errors the
+        # interpolator may place a sample that is a vertex of the convex
+        # hull outside of the data, and return zero for it.
+
+        sample = self._samples.get((float(x), float(y)))
+
+        if sample is not None:
+            return self._scale_z * sample
 
         return self._scale_z * self._interpolator(x, y)
 
@@ -255,6 +266,14 @@ class SparseHeightMap(BaseHeightMap):
             lines.append(last_point)
 
         return numpy.array(lines)
+
+    def _create_samples(self, sparse_data: ndarray) -> dict:
+        """Create a lookup table of the stored samples."""
+
+        return {
+            (float(x), float(y)): float(z)
+            for x, y, z in sparse_data[:, :3]
+        }
 
     def _create_interpolator(self, sparse_data: ndarray) -> LinearNDInterpolator:
         """Create a bivariate spline interpolator for a heightmap."""
